@@ -311,7 +311,7 @@ class DelGen(object):
     def step(self):
         r = self.rng
         placed = [v for v in self.par if self.in_forest(v)]
-        kinds = ["grow"] * 5 + ["del-plain", "del-plain", "del-dashed", "del-dashed", "del-dashed-deep", "del-rel", "del-missing", "del-missing-tail",
+        kinds = ["grow"] * 5 + ["del-plain", "del-plain", "del-dashed", "del-dashed", "del-dashed-deep", "del-dashed-deep", "del-dashed-deep", "del-rel", "del-rel", "del-missing", "del-missing-tail", "del-near-miss",
                                 "readd", "readd-elsewhere", "grow-removed", "del-twice", "del-parent-lookup"]
         if self.nasty:
             kinds += ["dashtop", "del-uid-of-dashed-top", "del-full-uid-on-variant", "same-as-top", "del-missing"]
@@ -344,6 +344,12 @@ class DelGen(object):
             v = r.choice(placed)
             nm = (self.rel(None, v) or "A") + "-" + r.choice(["Zz", "", "A", "B-C"])
             return self.delete(None, nm, kind)
+        if kind == "del-near-miss":
+            # a real path in another spelling: case, blanks, doubled dash (all KeyError unless such a variant exists)
+            v = r.choice(placed)
+            nm = self.rel(None, v) or "A"
+            alt = r.choice([nm.lower(), nm.upper(), nm[0].lower() + nm[1:], " " + nm, nm + " ", nm.replace("-", "--", 1), nm.replace("-", " -", 1), nm.swapcase()])
+            return self.delete(None, alt, kind)
         if kind == "del-twice":
             v = r.choice(placed)
             nm = self.rel(None, v)
